@@ -215,6 +215,12 @@ func DataSource(path string, writable bool, pragma map[string]string) string {
 	// (see cmd/redka/main.go on how to do this).
 	for name, val := range pragma {
 		params.Add("_pragma", name+"="+val)
+		// The mattn driver reads its own "_name=value" parameters
+		// (_foreign_keys, _journal_mode, _synchronous, ...) and applies them
+		// to every connection it opens, including the ones database/sql
+		// opens later to replace a discarded connection. Without this, such
+		// a connection comes up with the SQLite defaults (foreign keys off).
+		params.Set("_"+name, val)
 	}
 
 	return ds + "?" + params.Encode()
